@@ -195,12 +195,12 @@ Inductive target :=
 Definition of_rres (r : rres wloc) : target :=
   match r with ROk l => TgTag l | RErr a b c => TgErr a b c end.
 
-Definition resolve_in_scope (p : project) (sc : scope) (segs : list pseg) : target :=
+Definition resolve_in_scope (p : project) (listing : bool) (sc : scope) (segs : list pseg) : target :=
   match segs with
   | PLog 0 107 :: PLog 1 i :: rest =>
-      match rest with
-      | [] => TgSymbols sc i            (* class 0x6B + instance alone: the symbol object itself *)
-      | _ =>
+      match rest, listing with
+      | [], true => TgSymbols sc i      (* service 0x55: class 0x6B + start instance *)
+      | _, _ =>
           match find_tag_inst (p_tags p) i with
           | Some g => if scope_eqb (g_scope g) sc
                       then match tag_wloc g with
@@ -222,7 +222,8 @@ Definition resolve_in_scope (p : project) (sc : scope) (segs : list pseg) : targ
   | _ => TgOther
   end.
 
-Definition resolve_path (p : project) (path : bytes) : target :=
+(* [listing]: the service is Get Instance Attribute List (0x55), whose instance is where to start *)
+Definition resolve_path (p : project) (listing : bool) (path : bytes) : target :=
   match parse_psegs (length path) path with
   | None => TgErr 4 [] 8
   | Some segs =>
@@ -239,13 +240,13 @@ Definition resolve_path (p : project) (path : bytes) : target :=
           if starts_with txt_Program n then
             let pn := skipn 8 n in
             if existsb (name_eqb pn) (program_names p)
-            then match resolve_in_scope p (ScProg pn) rest with
+            then match resolve_in_scope p listing (ScProg pn) rest with
                  | TgOther => TgErr 4 [] 8
                  | t => t
                  end
             else TgErr 5 [] 9
-          else resolve_in_scope p ScCtrl segs
-      | _ => resolve_in_scope p ScCtrl segs
+          else resolve_in_scope p listing ScCtrl segs
+      | _ => resolve_in_scope p listing ScCtrl segs
       end
   end.
 
@@ -611,7 +612,7 @@ Definition svc_tmpl_read (pol : policy) (t : template) (cap : Z) (data : bytes) 
 Definition logix_request (st : lstate) (tr : transport) (cap : Z) (rq : mr_request)
   : option (lstate * mr_reply * list tevent) :=
   let svc := mr_service rq in
-  match resolve_path (ls_proj st) (mr_path rq) with
+  match resolve_path (ls_proj st) (svc =? 85) (mr_path rq) with
   | TgTag l => Some (tag_service st l cap rq)
   | TgSymbols sc start =>
       if svc =? 85 then let '(rp, ev) := svc_symbols st sc start cap (mr_data rq) in Some (st, rp, ev)
